@@ -332,6 +332,9 @@ def _subst_worker(arg):
             o = cls.stream_deserialize(f)
             if f.tell() != len(data) and len(bad) < 6:
                 bad.append(('trailing', tname, 'trailing %s' % tail.hex(), 'consumed %d of %d' % (f.tell(), len(data)), None))
+            elif o.serialize() != data and len(bad) < 6:
+                bad.append(('trailing', tname, 'trailing %s' % tail.hex(), 'the object decoded from a stream that continues after it '
+                            're-encodes to %d bytes, %d were consumed' % (len(o.serialize()), len(data)), None))
         except Exception as e:
             if len(bad) < 6:
                 bad.append(('trailing', tname, 'trailing %s' % tail.hex(), 'canonical encoding + trailing data raises %r' % (e,), None))
